@@ -332,6 +332,10 @@ def op_cli(ctx, op):
     status, exc, ret, out, err = run_cli(ctx, argv, stdin_text)
     after = fsaudit.snapshot([cwd])
     delta = fsaudit.diff(before, after, ignore_mtime=True)
+    # .tdda files carry wall-clock creation stamps (the clock is not
+    # stubbed in this machine): a rewrite is not logged as a modification
+    delta = [(p, c) for p, c in delta
+             if not (p.endswith('.tdda') and c == 'modified')]
     ev = {'i': op['i'], 'op': 'cli', 'argv': argv, 'status': status,
           'exc': exc_tag(exc) if exc else None,
           'delta': [(W.rel(p), c) for p, c in delta]}
